@@ -282,6 +282,24 @@ def r3(ctx):
     ok = isinstance(got, Opaque) and got.kind == "Attributes" and got.attrs.get("_d") == raw and list(got.attrs.get("_d")) == list(raw)
     ctx.ob("R3", ok, "decoded attributes are re-wrapped in the attribute container when isattributes", func=uj,
            sig="_unjsonify wraps in dict_class under isattributes" if ok else "_unjsonify(text, isattributes=True) = %r" % (t.result[1:],))
+    # two features decoded from equal text own their values: nothing is shared between the two results (one evaluator,
+    # two calls -- a memoised decoder hands out the very same lists)
+    it2 = Interp(ctx)
+    install_json(it2)
+    it2.construct_real |= {"attributes.Attributes"}
+    res = []
+    for _k in range(2):
+        try:
+            tr2 = it2.run(uj, {u0: text, "isattributes": True})
+        except Unsupported as e:
+            ctx.require(False, "helpers._unjsonify outside the analysable subset: %s" % e)
+        res.append(tr2[0].result[1] if tr2 and tr2[0].result[0] == "return" else None)
+    inner = lambda o_: o_.attrs.get("_d") if isinstance(o_, Opaque) else o_
+    d1, d2 = inner(res[0]), inner(res[1])
+    shared = isinstance(d1, dict) and isinstance(d2, dict) and (d1 is d2 or any(d1[k_] is d2.get(k_) for k_ in d1 if isinstance(d1[k_], list)))
+    ok = isinstance(d1, dict) and isinstance(d2, dict) and not shared
+    ctx.ob("R3", ok, "decoding the same stored text twice gives two independent mappings (no value list shared between features)", func=uj,
+           sig="decoded mappings are independent" if ok else "two decodings of equal text share %s" % ("their value lists" if shared else "nothing decodable: %r" % (res[:1],)))
     # Feature.__init__ on what a row holds: attributes text -> attribute mapping, extra text -> list
     init = require_func(ctx, "feature.Feature.__init__")
     it = Interp(ctx)
